@@ -451,3 +451,7 @@ func TestC16Constants(t *testing.T) {
 		return r.Result()
 	})
 }
+
+// The reduction with four scalars at a time, one goroutine each (h.RunPar): no
+// hidden shared state (the big-integer helpers use stack temporaries today).
+func TestC16ParShortVector(t *testing.T) { h.RunPar(t, 4, c16GenK, c16CheckK) }
